@@ -4,7 +4,7 @@
    accumulator type J with its update [jstep] and read-out [jout], and the
    DLSR conversion [dk]; and for every clock rate. *)
 From IV Require Import Base.Word Model.SenderStream Model.ReceiverStream Spec.ReceiverSpec
-  Proofs.ReceiverStreamProofs Check.C06Check.
+  Proofs.ReceiverStreamProofs Proofs.ReceiverInterceptorProofs Check.C06Check.
 
 (* MAIN THEOREM.  For every history of TRUE sequence numbers within the scope
    of the property text (first number below 2^16; each arrival less than 8192
@@ -139,3 +139,17 @@ Theorem C06_spec_reading : forall J j0 jstep jout dk rate ops,
   a_recv (a_final J jstep jout dk rate (a_init J j0) ops) = rev (arrivals ops) ++ [].
 Proof. intros. apply (spec_hi_recv J jstep jout dk rate ops (a_init J j0)). reflexivity. Qed.
 Print Assumptions C06_spec_reading.
+
+(* INTERCEPTOR LEVEL ("each receiver report for a bound remote stream", several
+   streams): after any sequence of BindRemoteStream / UnbindRemoteStream / RTP
+   reads / sender reports / ticks, a tick writes a report for SSRC s iff s is
+   bound, and that report is the one the stream core produces after the history
+   of s alone (its packets, its sender reports and the earlier ticks since its
+   latest bind, [trackh]); by C06_reports_are_the_recount that is the recount. *)
+Theorem C06_interceptor_reports : forall J j0 jstep jout dk ops now s rep,
+  In (s, rep) (snd (ri_step J j0 jstep jout dk (ri_final J j0 jstep jout dk [] ops) (RITick now))) <->
+  exists rate h, fold_left (ReceiverInterceptorProofs.trackh s) ops None = Some (rate, h) /\
+    r_run J jstep jout dk rate (r_init J j0) (h ++ [RRep now]) =
+    r_run J jstep jout dk rate (r_init J j0) h ++ [rep].
+Proof. exact ReceiverInterceptorProofs.tick_reports. Qed.
+Print Assumptions C06_interceptor_reports.
